@@ -307,9 +307,24 @@ def registered_names():
     return out
 
 
+QUICK_TABLE = 'wlearner_criterion'
+
+
 def quick_enums(tier):
-    reg = registered_names()
-    return [q for q in sorted(tables()) if tier == 'thorough' or short(q) in reg or not reg]
+    """thorough tier: every table.  Quick tier: ONE representative table -- wlearner_criterion (the registered enumeration with a name
+    that is a proper prefix of a later one: aic / aicc), else the first table with such a prefix pair, else the first registered one;
+    the function templates are the same for every T, the other tables differ in their data only"""
+    tabs = sorted(tables())
+    if tier == 'thorough':
+        return tabs
+    pick = [q for q in tabs if short(q) == QUICK_TABLE]
+    if not pick:
+        def prefixed(q):
+            names = [s for _, s in tables()[q]['entries']]
+            return any(a != b and b.startswith(a) for a in names for b in names)
+        reg = registered_names()
+        pick = [q for q in tabs if prefixed(q) and short(q) in reg] or [q for q in tabs if short(q) in reg] or tabs
+    return pick[:1]
 
 
 def targets(tier='thorough'):
